@@ -2,6 +2,7 @@ package props
 
 import (
 	"fmt"
+	"runtime"
 	"strings"
 
 	"github.com/aundis/formula"
@@ -65,14 +66,25 @@ func pickTier(tier string, q, t int) int {
 	return q
 }
 
+// c01AllocPerByte bounds what one parse may allocate per input byte (observed maximum on the pinned tree: see the
+// evidence counter alloc_bytes_per_input_byte; about 260 in the quick tier; the bound leaves a factor of about eight).
+const c01AllocPerByte = 2000
+
 var c01Parse = core.Mon(c01, "parse-total", checkC01)
 
 func init() { c01.Run = runC01 }
 
 func checkC01(w *core.W, c *ParseCase) {
 	src := c.Src
-	if len(src) >= 512 || w.Replay {
+	if len(src) >= 512 || w.Replay || c.Gen == "extreme-literal" {
 		w.Cur("parse-total", c)
+	}
+	// memory is part of "time roughly proportional to the input length": what a parse allocates is bounded by a constant
+	// per input byte (measured on large inputs only; reading the counters stops the world)
+	measureAlloc := len(src) >= 16384
+	var m0 runtime.MemStats
+	if measureAlloc {
+		runtime.ReadMemStats(&m0)
 	}
 	w.Eval(1)
 	var tc obs.TickCounter
@@ -87,6 +99,17 @@ func checkC01(w *core.W, c *ParseCase) {
 	obs.SetHook(nil)
 	viol := func(sig string, exp, got interface{}, detail string) {
 		w.Violation("parse-total", "C01/"+sig, c, exp, got, detail+" input="+c.Quoted())
+	}
+	if measureAlloc {
+		var m1 runtime.MemStats
+		runtime.ReadMemStats(&m1)
+		perByte := float64(m1.TotalAlloc-m0.TotalAlloc) / float64(len(src))
+		w.Max("alloc_bytes_per_input_byte", perByte)
+		w.Count("alloc_measured")
+		if perByte > c01AllocPerByte {
+			viol("allocation-bound", fmt.Sprintf("<= %d bytes allocated per input byte", c01AllocPerByte), fmt.Sprintf("%.0f", perByte), "memory allocated by one parse is not proportional to the input length")
+			return
+		}
 	}
 	if panicked {
 		if _, ok := pv.(obs.Runaway); ok {
@@ -358,6 +381,7 @@ func runC01(w *core.W) {
 		}
 		c := &ParseCase{Src: src, Gen: genName}
 		seen++
+		c01Parse(w, c) // (first: it leaves the breadcrumb that attributes a hang or crash to this input)
 		if (seen < 3000 || seen%37 == 0) && len(src) <= 4096 && len(remembered) < 40000 {
 			remembered = append(remembered, &StableCase{Src: src, First: parseOutcome(src)})
 			if len(remembered)%16 == 0 {
@@ -365,10 +389,18 @@ func runC01(w *core.W) {
 				c01Stable(w, remembered[len(remembered)-8])
 			}
 		}
-		c01Parse(w, c)
 		w.Count(counter)
 		if w.Counter(counter)%997 == 1 {
 			w.Sample(genName, c.Quoted())
+		}
+	}
+	// 0. literals at the extremes of what can be written down in a few bytes (the parser does not do arithmetic on them)
+	for i, lit := range []string{"18446744073709551615e999999999", "99999999999999999999e99999999", "1e999999999", "123456789012345678901234567890e2147483647", "1e-999999999", ".1e4294967296", "1e9223372036854775807",
+		"1e18446744073709551616", "9e-2147483649", "0e999999999999", "1_0e1_000_000_000", "184467440737095516150000000000e999999999", "1e99999999999999999999999999999", "4294967296e4294967296"} {
+		if w.Mine(i) {
+			for _, emb := range []string{"%s", "[%s]", "f(%s, 1)", "%s + 1", "a ? %s : 2"} {
+				run("extreme-literal", []byte(strings.ReplaceAll(emb, "%s", lit)), "extreme_literals")
+			}
 		}
 	}
 	// 1. exhaustive token sequences
